@@ -9,6 +9,7 @@ open Common
 module List = Stdlib.List
 module String = Stdlib.String
 
+let id_ x = x
 let elem_at shape data i = List.nth data (int_of_z (horner Z0 i shape))
 
 let axis_of = function
@@ -53,10 +54,10 @@ let () =
         let src = elem_at s d in
         let model = (match remove_dims s ax kd with
           | None -> "ub"
-          | Some shp -> show_view string_of_z shp (fun i -> reduce_at f src s ax kd init i)) in
+          | Some shp -> show_view string_of_z shp (fun i -> reduce_at id_ f src s ax kd init i)) in
         let ok = axes_ok (zlen s) ax in
         let spec = if not ok then "unspecified" else
-          show_view string_of_z (reduce_shape_spec s ax kd) (fun i -> reduce_spec f src s ax kd init i) in
+          show_view string_of_z (reduce_shape_spec s ax kd) (fun i -> reduce_spec id_ f src s ax kd init i) in
         { model; spec; dom = posb s && ok }
     | _ -> failwith "reduce");
   (* accum S:op S:arraykind A:arr I:axis *)
@@ -66,10 +67,10 @@ let () =
         let f = op_of (getS op) and ax = getI ax in
         let src = elem_at s d in
         let n = zlen s in
-        let model = show_view string_of_z s (fun i -> accumulate_at f src n ax i) in
+        let model = show_view string_of_z s (fun i -> accumulate_at id_ f src n ax i) in
         let valid = Z.leb (Z.opp n) ax && Z.ltb ax n in
         let spec = if not valid then "unspecified" else
-          show_view string_of_z s (fun i -> accumulate_spec f src n ax i) in
+          show_view string_of_z s (fun i -> accumulate_spec id_ f src n ax i) in
         { model; spec; dom = posb s && valid }
     | _ -> failwith "accum");
   (* stat S:fn S:kd A:arr axis I:ddof   — mean / var / stddev on double data x/7.
@@ -88,7 +89,7 @@ let () =
           | None -> "ub"
           | Some nax ->
             let div = float_of_int (int_of_z (mean_divisor s nax)) in
-            let mean_at kd' i = (match reduce_at (+.) src s nax kd' None i with Some v -> Some (v /. div) | None -> None) in
+            let mean_at kd' i = (match reduce_at id_ (+.) src s nax kd' None i with Some v -> Some (v /. div) | None -> None) in
             (match remove_dims s nax kd, remove_dims s nax true with
              | Some shp, Some shp1 ->
                if fn = "mean" then show_view fl shp (mean_at kd)
@@ -100,7 +101,7 @@ let () =
                    (match mean_at true j with
                     | Some m -> let t = Float.abs (src i -. m) in t *. t
                     | None -> nan) in
-                 let var_at i = (match reduce_at (+.) dev s nax kd None i with
+                 let var_at i = (match reduce_at id_ (+.) dev s nax kd None i with
                                  | Some e -> Some (e /. (div -. ddof)) | None -> None) in
                  if fn = "var" then show_view fl shp var_at
                  else show_view fl shp (fun i -> match var_at i with Some v -> Some (sqrt v) | None -> None)
@@ -129,7 +130,7 @@ let () =
         (* the root is taken in the array's floating type: static_cast<double>(1)/ord *)
         let model = (match remove_dims s ax kd with
           | None -> "ub"
-          | Some shp -> show_view fl shp (fun i -> match reduce_at (+.) src s ax kd None i with
+          | Some shp -> show_view fl shp (fun i -> match reduce_at id_ (+.) src s ax kd None i with
                                                    | Some v -> Some (Float.pow v (1.0 /. ord)) | None -> None)) in
         let spec = if not ok then "unspecified" else begin
           let mask = red_mask (nat_of_int (List.length s)) ax in
@@ -152,7 +153,7 @@ let () =
            let ax = AxInt (z_of_int (-1)) in
            let model = (match remove_dims dshape ax false with
              | None -> "ub"
-             | Some shp -> show_view string_of_z shp (fun i -> reduce_at Z.add diag dshape ax false None i)) in
+             | Some shp -> show_view string_of_z shp (fun i -> reduce_at id_ Z.add diag dshape ax false None i)) in
            let spec = show_view string_of_z rest (fun j ->
              let l = List.map (fun i -> src (i :: i :: j)) (zrange k) in
              match l with x :: t -> Some (List.fold_left Z.add x t) | [] -> None) in
@@ -177,18 +178,68 @@ let () =
         let src = elem_at s d in
         if getS fn = "cumsum" then begin
           let axv = getI ax and n = zlen s in
-          let model = show_view string_of_z s (fun i -> accumulate_at f src n axv i) in
+          let model = show_view string_of_z s (fun i -> accumulate_at id_ f src n axv i) in
           let valid = Z.leb (Z.opp n) axv && Z.ltb axv n in
-          { model; spec = (if valid then show_view string_of_z s (fun i -> accumulate_spec f src n axv i) else "unspecified");
+          { model; spec = (if valid then show_view string_of_z s (fun i -> accumulate_spec id_ f src n axv i) else "unspecified");
             dom = posb s && valid }
         end else begin
           let kd = kd_of (getS kd) and ax = axis_of ax in
           let init = (match init with N -> None | I v -> Some (Z.modulo v m) | _ -> failwith "init") in
           let model = (match remove_dims s ax kd with
             | None -> "ub"
-            | Some shp -> show_view string_of_z shp (fun i -> reduce_at f src s ax kd init i)) in
+            | Some shp -> show_view string_of_z shp (fun i -> reduce_at id_ f src s ax kd init i)) in
           let ok = axes_ok (zlen s) ax in
-          { model; spec = (if ok then show_view string_of_z (reduce_shape_spec s ax kd) (fun i -> reduce_spec f src s ax kd init i) else "unspecified");
+          { model; spec = (if ok then show_view string_of_z (reduce_shape_spec s ax kd) (fun i -> reduce_spec id_ f src s ax kd init i) else "unspecified");
             dom = posb s && ok }
         end
-    | _ -> failwith "u8")
+    | _ -> failwith "u8");
+  (* ---------- type-width boundaries (drivers/c08_types.cpp) ---------- *)
+  (* rdims S:axtype S:axkind S:shapekind S:kd L:shape axis — index::remove_dims on a bare shape: the result must not
+     depend on the axis argument's integer type *)
+  register "rdims" (fun a -> match a with
+    | [_; _; _; kd; shp; ax] ->
+        let s = getL shp and kd = kd_of (getS kd) and ax = axis_of ax in
+        let ok = axes_ok (zlen s) ax in
+        { model = (match remove_dims s ax kd with Some r -> "ok " ^ show_list r | None -> "ub");
+          spec = (if ok then "ok " ^ show_list (reduce_shape_spec s ax kd) else "unspecified");
+          dom = ok }
+    | _ -> failwith "rdims");
+  (* tsum S:axtype S:axkind S:kd A:arr axis — view::sum with a typed axis argument *)
+  register "tsum" (fun a -> match a with
+    | [_; _; kd; arr; ax] ->
+        (Hashtbl.find handlers "reduce") [Str "sum"; Str "named"; Str "x"; kd; Str "dyn"; arr; ax; N]
+    | _ -> failwith "tsum");
+  (* tred S:fn S:src S:dtype S:kd A:arr axis init / tacc S:fn S:src S:dtype A:arr I:axis — the fold lives in the result type *)
+  let dt = function
+    | "i8" -> Dtype.I8 | "u8" -> Dtype.U8 | "i16" -> Dtype.I16 | "u16" -> Dtype.U16 | "i32" -> Dtype.I32 | "u32" -> Dtype.U32
+    | "i64" -> Dtype.I64 | "u64" -> Dtype.U64 | "f32" -> Dtype.F32 | "f64" -> Dtype.F64 | t -> failwith ("dtype " ^ t) in
+  let req = function "none" -> None | t -> Some (dt t) in
+  (* drivers/show.hpp prints every integer through (long long): a uint64 value >= 2^63 appears as its two's complement *)
+  let pr_of rt = if rt = Dtype.U64 then (fun z -> string_of_z (swrap (z_of_int 64) z)) else string_of_z in
+  let ring = function "sum" | "cumsum" | "add" -> Z.add | "prod" | "cumprod" -> Z.mul | t -> failwith ("ring op " ^ t) in
+  register "tred" (fun a -> match a with
+    | [fn; src; d; kd; arr; ax; init] ->
+        let (s, data) = getA arr in
+        let op = ring (getS fn) and e = dt (getS src) and r = req (getS d) and kd = kd_of (getS kd) and ax = axis_of ax in
+        let init = (match init with N -> None | I v -> Some v | _ -> failwith "init") in
+        let srcf = elem_at s data in
+        let ok = axes_ok (zlen s) ax in
+        let pr = pr_of (Dtype.reduce_dtype r e) in
+        let model = (match remove_dims s ax kd with
+          | None -> "ub"
+          | Some shp -> show_view pr shp (fun i -> typed_reduce_at r e op srcf s ax kd init i)) in
+        let spec = if not ok then "unspecified" else
+          show_view pr (reduce_shape_spec s ax kd) (fun i -> typed_reduce_spec r e op srcf s ax kd init i) in
+        { model; spec; dom = posb s && ok }
+    | _ -> failwith "tred");
+  register "tacc" (fun a -> match a with
+    | [fn; src; d; arr; ax] ->
+        let (s, data) = getA arr in
+        let op = ring (getS fn) and e = dt (getS src) and r = req (getS d) and ax = getI ax in
+        let srcf = elem_at s data and n = zlen s in
+        let valid = Z.leb (Z.opp n) ax && Z.ltb ax n in
+        let pr = pr_of (Dtype.reduce_dtype r e) in
+        { model = show_view pr s (fun i -> typed_accumulate_at r e op srcf n ax i);
+          spec = (if valid then show_view pr s (fun i -> typed_accumulate_spec r e op srcf n ax i) else "unspecified");
+          dom = posb s && valid }
+    | _ -> failwith "tacc")
